@@ -26,11 +26,16 @@ class Model:
         self.env = {}
         self.reqs = []  # (prob, cond with resolved operands)
         self.roots = []  # (label, operand)
+        self.objprops = {}  # object index -> {property: operand}
+        self.egoprops = {}  # properties of the object currently named `ego`
         self._build(prog)
 
     # -- construction -----------------------------------------------------------
     def _op(self, o):
         if isinstance(o, tuple) and len(o) == 2 and o[0] == "n":
+            if o[1].startswith("ego."):
+                # a property of whatever object `ego` names when the statement is executed
+                return self.egoprops[o[1][4:]]
             return ("r", self.env[o[1]])
         return ("c", o)
 
@@ -83,8 +88,15 @@ class Model:
             elif kind == "param":
                 self.roots.append(("param:" + st[1], self._op(st[2])))
             elif kind == "object":
+                props = {}
                 for prop, o in st[2]:
-                    self.roots.append((f"obj{st[1]}:{prop}", self._op(o)))
+                    props[prop] = self._op(o)
+                    self.roots.append((f"obj{st[1]}:{prop}", props[prop]))
+                self.objprops[st[1]] = props
+                if st[1] == 0:
+                    self.egoprops = props
+            elif kind == "setego":
+                self.egoprops = self.objprops[st[1]]
             else:
                 raise ValueError(kind)
 
